@@ -240,7 +240,7 @@ Message *Message::factory(const F8MetaCntx& ctx, const f8String& from, bool no_c
 
 	const unsigned mlen(fast_atoi<unsigned>(len));
 	const BaseMsgEntry *bme(ctx._bme.find_ptr(mtype));
-	if (!bme)
+	if (!bme || !::strcmp(mtype, "header") || !::strcmp(mtype, "trailer")) // the table also holds the header and trailer creators
 		throw InvalidMessage(mtype, FILE_LINE);
 	Message *msg(bme->_create._do(false)); // shallow create
 #if defined FIX8_CODECTIMING
